@@ -102,3 +102,16 @@ impl Comm for CommSender {
         self.client_events.as_mut().unwrap().as_mut()
     }
 }
+
+#[cfg(feature = "verif")]
+impl CommSender {
+    /// Breaks the `comm -> event processor -> ServerRef -> comm` cycle of a discarded simulated server.
+    pub(crate) fn verif_clear(&mut self) {
+        self.client_events = None;
+        self.workers.clear();
+    }
+
+    pub(crate) fn verif_worker_ids(&self) -> Vec<WorkerId> {
+        self.workers.keys().copied().collect()
+    }
+}
